@@ -50,7 +50,12 @@ class PyFormatter(Formatter):
     @override(Formatter)
     def format_docstring(self, *comments: str) -> List[str]:
         strings = ['"""']
-        strings.extend([comment for comment in comments])
+        strings.extend(
+            [
+                comment.replace("\\", "\\\\").replace('"""', '\\"\\"\\"')
+                for comment in comments
+            ]
+        )
         strings.append('"""')
         return strings
 
